@@ -127,7 +127,8 @@ check("C09", "rocq-core", "proof",
 check("C10", "rocq-core", "proof",
       "Theorems in coq/core/Properties/C10.v, for all valid fields / all 64-bit words / all strings: pack-accessor round trips, order = "
       "lexicographic, archive round trip, parse(show t) = t, parse never panics. The model is tied to timestamp.rs by differential execution over a "
-      "boundary grid, random stamps and malformed text (hx-ts).",
+      "boundary grid, random stamps and malformed text (hx-ts), and to the place where the text form is stored and re-read (rows of the SQLite "
+      "backend with arbitrary stamp text: hx-rows).",
       "Trusted: Coq kernel, hand-written model Ts.v, ExtrOcamlBasic extraction + OCaml driver, the Rust executor; rkyv's archived u64 modelled as 8 LE bytes.")
 check("C11", "rocq-core", "proof",
       "Theorems in coq/core/Properties/C11.v over the clock actor of Hlc.v (one task owning the stamp, one FIFO queue = any order-preserving "
